@@ -717,6 +717,18 @@ def after_pack(raw, fn):
         return {"exc": family(e), "late": 1, "octets": octs(raw)}
 
 
+_INJ = []
+
+
+def decoded(fn):
+    """The decoded object an unpack adapter projects: normally fn() (the real decode call); when the repository's own tests
+    are traced (vp/repotrace.py) the object their call returned is injected instead, so the adapter's projection is applied
+    to exactly what the test saw."""
+    if _INJ:
+        return _INJ.pop()
+    return fn()
+
+
 def rxbuf(raw, sfx=()):
     """The buffer handed to a decoder: bytes or bytearray (receive buffers, e.g. what the stream parser returns, are
     bytearrays), chosen deterministically from the content so that both types are exercised on every grid."""
